@@ -655,6 +655,11 @@ func (e *verifEnv) install(w *verifLbcWorld) {
 		if verifDepsMode == "badsecrets" {
 			typ = "bad"
 		}
+		if verifDepsMode == "wrongsecrets" {
+			// every referenced Secret exists and is VALID — hence has files in the store — but is of another type than the
+			// reference wants (seed C07-7: a CA secret's path is two file names)
+			typ = map[string]string{"tls": "ca", "ca": "tls", "jwk": "htpasswd", "htpasswd": "jwk", "oidc": "ca", "apikey": "ca"}[typ]
+		}
 		var s *api_v1.Secret
 		if typ == "oidc" {
 			s = &api_v1.Secret{ObjectMeta: metav1.ObjectMeta{Namespace: ns, Name: name}, Type: secrets.SecretTypeOIDC, Data: map[string][]byte{"client-secret": []byte("sec")}}
@@ -1490,7 +1495,7 @@ func verifDuplicates(defs []verifDef, kinds map[string]bool) []string {
 
 // VerifWf renders a generated set of resources and reports what would stop NGINX from loading it.
 //
-// kv: plus=0|1  deps=ok|nosecrets|badsecrets|noendpoints|nopolicies
+// kv: plus=0|1  deps=ok|nosecrets|badsecrets|wrongsecrets|noendpoints|nopolicies
 //
 //	objs = item;item;...   item = fx:<fixture file>:<ns>:<name prefix>:<host tag>  |  min:<ing|vs|ts>:<ns>:<name>:<host>:<svc>
 func VerifWf(kv map[string]string) string {
